@@ -154,10 +154,15 @@ class Ctx(object):
         a = self.num()
         if isinstance(a, complex):
             return a if self.rng.random() < 0.8 else np.complex128(a)
-        if float(a) == int(a) and self.rng.random() < 0.4:
+        u = self.rng.random()
+        if float(a) == int(a) and u < 0.35:
             return int(a)
-        if self.rng.random() < 0.15:
+        if float(a) == int(a) and u < 0.42:
+            return np.int64(int(a))
+        if u < 0.55:
             return np.float64(a)
+        if u < 0.62:
+            return np.float32(a)
         return float(a)
 
     def ivec(self, n, lo=-3, hi=3):
@@ -796,10 +801,20 @@ def run_case(ctx, t, npts=2):
         y = o(xe)
         out = flat(ctx, y)
         ip = 'None'
+        nonfinite = not all(math.isfinite(abs(complex(u))) for u in out)
         if rr != 'F':
             buf = o.range.element(np.full(rr, np.nan))
             res = o(xe, out=buf)
-            ip = '(Some %s)' % ctx.qs(flat(ctx, buf))
+            ipv = flat(ctx, buf)
+            nonfinite = nonfinite or res is not buf or not all(math.isfinite(abs(complex(u))) for u in ipv)
+            if not nonfinite:
+                ip = '(Some %s)' % ctx.qs(ipv)
+        if nonfinite:
+            # NaN/inf (e.g. the NaN-filled `out` leaking into the result) has no rational literal:
+            # report the case as failing instead of crashing
+            term = '{| c_vt := vt_now; c_expr := %s; c_build := BOther; c_points := [] |}' % to_coq(ctx, t)
+            return term, {'expr': src_skeleton(t), 'outcome': 'non-finite value or `out` not returned', 'x': x}, \
+                ('nonfinite', src_skeleton(t))
         pts.append('{| p_x := %s; p_out := %s; p_ip := %s |}' % (ctx.qs(x), ctx.qs(out), ip))
     term = ('{| c_vt := vt_now; c_expr := %s; c_build := BOk %s %s %s %s %s; c_points := %s |}'
             % (to_coq(ctx, t), sk, dterm, rterm, C.b(bool(o.is_linear)), C.b(isinstance(o, Functional)),
@@ -828,7 +843,7 @@ def correspondence(rng, tier):
     prelude = ('Definition vt_now : variant := {| v_frvec_lin := %s; v_vecsum_field := %s |}.'
                % (C.b(frvec), C.b(vecsum)))
     cs = C.CaseSet('real', ['Base.Vec', 'C04.Model', 'C04.Corr'], 'check_real', 'case Q', prelude=prelude)
-    n = 450 if tier == 'quick' else 2500
+    n = 900 if tier == 'quick' else 7500
     maxd = 4 if tier == 'quick' else 7
     for i in range(n):
         ctx = Ctx(rng, False, rng.choice(['rn', 'rn', 'wrn', 'discr']))
@@ -1160,7 +1175,7 @@ def probes(rng, tier):
     import odl
     out = []
     # 1. reference-interpreter oracle on random trees, deeper than the correspondence, both fields
-    n = 250 if tier == 'quick' else 1500
+    n = 400 if tier == 'quick' else 4000
     maxd = 5 if tier == 'quick' else 8
     for i in range(n):
         ctx = Ctx(rng, (i % 3 == 2), rng.choice(['rn', 'rn', 'wrn', 'discr']))
